@@ -533,6 +533,9 @@ func (sk *SecretKey) UnmarshalCBOR(data []byte) error {
 	if err != nil {
 		return errs.Wrap(err).WithMessage("could not unmarshal secret key from CBOR")
 	}
+	if dto == nil {
+		return encryption.ErrIsNil.WithMessage("SecretKey DTO is nil")
+	}
 	skNew, err := NewSecretKey(dto.Group)
 	if err != nil {
 		return errs.Wrap(err).WithMessage("could not create secret key from unmarshaled group")
